@@ -77,6 +77,9 @@ type codeCfg struct {
 	// a pointer to a string or to one of `structs` is an `Option` (nil = none); a parameter of pointer type is taken to be
 	// non-nil and stands for the value itself
 	ptrOption bool
+	// library methods that CHANGE the local value they are called on (buf.WriteString(x)): full name → the Lean function
+	// `f value args… : value'`
+	libMut map[string]string
 }
 
 type unsupported struct{ why string }
@@ -132,6 +135,9 @@ func (g *goTranslator) leanType(t types.Type) string {
 				return sn
 			}
 		}
+	}
+	if st, ok := t.Underlying().(*types.Struct); ok && st.NumFields() == 0 {
+		return "Unit" // struct{}
 	}
 	if it, ok := t.Underlying().(*types.Interface); ok && it.NumMethods() == 0 {
 		return "Any" // `interface{}`: a value the code only passes on; it stands for its identity
@@ -227,8 +233,10 @@ func zeroOf(leanT string) string {
 	if strings.HasPrefix(leanT, "List ") || leanT == "Bytes" {
 		return "[]"
 	}
-	bad("no zero value for %s", leanT)
-	return ""
+	if leanT == "Unit" {
+		return "()"
+	}
+	return "(default : " + leanT + ")" // a type of the library tables: its Inhabited instance
 }
 
 // one method being translated
@@ -252,6 +260,7 @@ type mctx struct {
 	envValue  bool            // the value being stored is itself an environment object (a parameter of interface type)
 	loopState []string        // inside the body of a general range loop: the variables it threads (nil outside)
 	retType   string          // Lean type of the method's results
+	resTypes  []string        // Lean types of the results, one by one
 	panics    bool            // the body contains `panic(…)`: results are `Option …`, `none` = it panicked
 }
 
@@ -511,6 +520,9 @@ func (m *mctx) expr(e ast.Expr) string {
 			if _, isSl := tv.Type.Underlying().(*types.Slice); isSl && len(x.Elts) == 0 {
 				return "([] : " + m.g.leanType(tv.Type) + ")"
 			}
+			if st, isSt := tv.Type.Underlying().(*types.Struct); isSt && st.NumFields() == 0 {
+				return "()"
+			}
 			if _, isMap := tv.Type.Underlying().(*types.Map); isMap {
 				var es []string
 				for _, el := range x.Elts {
@@ -683,6 +695,24 @@ func (m *mctx) libFunc(c *ast.CallExpr) (lean string, recv ast.Expr, ok bool) {
 	return
 }
 
+// libMutCall: x.M(args) with x a local value and M a library method that changes it
+func (m *mctx) libMutCall(c *ast.CallExpr) (lean, local string, ok bool) {
+	se, isSel := c.Fun.(*ast.SelectorExpr)
+	if !isSel {
+		return
+	}
+	id, isId := se.X.(*ast.Ident)
+	if !isId || m.isRecv(id) {
+		return
+	}
+	fn, isFn := m.g.info.Uses[se.Sel].(*types.Func)
+	if !isFn {
+		return
+	}
+	lean, ok = m.g.cfg.libMut[fn.FullName()]
+	return lean, id.Name, ok
+}
+
 // pkgFuncName: the full name of the package-level function a call calls ("" when it is something else)
 func (m *mctx) pkgFuncName(c *ast.CallExpr) string {
 	var id *ast.Ident
@@ -716,11 +746,19 @@ func (m *mctx) call(c *ast.CallExpr) string {
 		if recv != nil && m.isRecv(recv) {
 			bad("library method on the receiver")
 		}
+		only := -1
+		if i := strings.LastIndex(lean, "@"); i >= 0 {
+			fmt.Sscanf(lean[i+1:], "%d", &only) // "Name@i": only argument i is passed on (the others are message details)
+			lean = lean[:i]
+		}
 		parts := []string{lean}
 		if recv != nil {
 			parts = append(parts, m.atom(recv))
 		}
-		for _, a := range c.Args {
+		for i, a := range c.Args {
+			if only >= 0 && i != only {
+				continue
+			}
 			parts = append(parts, m.atom(a))
 		}
 		return "(" + strings.Join(parts, " ") + ")"
@@ -742,7 +780,10 @@ func (m *mctx) call(c *ast.CallExpr) string {
 			case "len":
 				return "(" + m.expr(c.Args[0]) + ".length : Int)"
 			case "append":
-				if len(c.Args) != 2 || c.Ellipsis.IsValid() {
+				if len(c.Args) == 2 && c.Ellipsis.IsValid() {
+					return "(" + m.expr(c.Args[0]) + " ++ " + m.atom(c.Args[1]) + ")"
+				}
+				if len(c.Args) != 2 {
 					bad("append with other than one element")
 				}
 				return "(" + m.expr(c.Args[0]) + " ++ [" + m.expr(c.Args[1]) + "])"
@@ -752,7 +793,17 @@ func (m *mctx) call(c *ast.CallExpr) string {
 						return "([] : " + m.g.leanType(tv.Type) + ")"
 					}
 				}
-				bad("make of something that is not a map")
+				if tv, ok := m.g.info.Types[c.Args[0]]; ok && len(c.Args) >= 2 {
+					if sl, isSl := tv.Type.Underlying().(*types.Slice); isSl {
+						lt := m.g.leanType(tv.Type)
+						if ltv, ok := m.g.info.Types[c.Args[1]]; ok && ltv.Value != nil && ltv.Value.ExactString() == "0" {
+							return "([] : " + lt + ")" // make([]T, 0, cap)
+						}
+						// make([]T, n): n zero values
+						return "(List.replicate (" + m.expr(c.Args[1]) + ").toNat (" + zeroOf(m.g.leanType(sl.Elem())) + ") : " + lt + ")"
+					}
+				}
+				bad("make of something that is not a map or a slice")
 			}
 			bad("builtin %s", id.Name)
 		}
@@ -1095,6 +1146,13 @@ func (m *mctx) assigned(stmts []ast.Stmt) (vars []string, recv bool) {
 					vars = append(vars, leanIdent(id.Name))
 				}
 			case *ast.CallExpr:
+				if _, id, isMut := m.libMutCall(x); isMut {
+					if !declared[id] && !seen[id] {
+						seen[id] = true
+						vars = append(vars, leanIdent(id))
+					}
+					break
+				}
 				if _, _, isLib := m.libFunc(x); isLib {
 					break
 				}
@@ -1179,6 +1237,10 @@ func (m *mctx) stmts(list []ast.Stmt, tail func() string, ind string) string {
 		case *ast.ReturnStmt:
 			vals := make([]string, len(x.Results))
 			for j, r := range x.Results {
+				if id, ok := r.(*ast.Ident); ok && id.Name == "nil" && j < len(m.resTypes) {
+					vals[j] = zeroOf(m.resTypes[j])
+					continue
+				}
 				if m.isRecv(r) {
 					vals[j] = "()" // `return w` (fluent interface): the caller already holds the receiver
 					continue
@@ -1232,6 +1294,15 @@ func (m *mctx) stmts(list []ast.Stmt, tail func() string, ind string) string {
 			}
 			if once, body, ok := m.onceDo(c); ok {
 				b.WriteString(m.onceBlock(once, body, ind))
+				continue
+			}
+			if fn, id, ok := m.libMutCall(c); ok {
+				parts := []string{fn, leanIdent(id)}
+				for _, a := range c.Args {
+					parts = append(parts, m.atom(a))
+				}
+				m.flush(&b, ind)
+				b.WriteString(fmt.Sprintf("%slet %s := %s;\n", ind, leanIdent(id), strings.Join(parts, " ")))
 				continue
 			}
 			if isPanicCall(c) {
@@ -1698,9 +1769,6 @@ func (m *mctx) forStep(x *ast.ForStmt, rest []ast.Stmt, tail func() string, ind 
 	if cond.Op == token.LEQ {
 		bnd = "(" + bnd + " + 1)"
 	}
-	if hit := usesAny(rest, declaredIn(x.Body.List)); hit != "" {
-		bad("%s declared in a loop body is also a name used after the loop", hit)
-	}
 	src := fmt.Sprintf("((GoSem.rangeStep %s %s %s).map fun i_ => (i_, i_))", a, bnd, step)
 	b.WriteString(m.loopGeneral(src, leanIdent(idx.Name), "_", x.Body, vars, recv, rest, tail, ind))
 	return b.String()
@@ -1710,9 +1778,6 @@ func (m *mctx) forStep(x *ast.ForStmt, rest []ast.Stmt, tail func() string, ind 
 func (m *mctx) loopGeneral(src, kname, vname string, bodyStmt *ast.BlockStmt, vars []string, recv bool, rest []ast.Stmt, tail func() string, ind string) string {
 	var b strings.Builder
 	x := struct{ Body *ast.BlockStmt }{bodyStmt}
-	if hit := usesAny(rest, declaredIn(x.Body.List)); hit != "" {
-		bad("%s declared in a loop body is also a name used after the loop", hit)
-	}
 	state := append([]string{}, vars...)
 	if recv {
 		state = append([]string{leanIdent(m.recv)}, state...)
@@ -1741,6 +1806,8 @@ func (m *mctx) loopGeneral(src, kname, vname string, bodyStmt *ast.BlockStmt, va
 		onRet = "(GoSem.Ctl.ret r_, " + tuple(saved) + ")"
 	case savedOpt:
 		onRet = "some r_"
+	case m.pure:
+		onRet = "r_"
 	default:
 		onRet = "(r_, " + leanIdent(m.recv) + ")"
 	}
@@ -2306,6 +2373,7 @@ func (g *goTranslator) funcPure(fd *ast.FuncDecl) (txt string, err error) {
 		ret = strings.Join(resT, " × ")
 	}
 	m.retType = ret
+	m.resTypes = resT
 	tail := func() string {
 		if len(resT) > 0 && len(m.results) == 0 {
 			bad("control reaches the end of a function with unnamed results")
